@@ -2019,6 +2019,9 @@ func generateAbandon(r *rand.Rand) *Scenario {
 // Closed, 8 cycles, consolidation on.
 func generateFrag(r *rand.Rand) *Scenario {
 	pick := func(vs ...int) int { return vs[r.Intn(len(vs))] }
+	if r.Intn(5) == 0 {
+		return generateRefuge(r)
+	}
 	sc := &Scenario{Class: "frag"}
 	sc.Cfg = Cfg{Placement: []string{"binpack", "spread"}[r.Intn(2)], Consolidation: 1, Signatures: pick(0, 1),
 		ConsReclaim: pick(0, 1), SatMult: 1000, Cycles: pick(2, 8), Env: "closed", FullHier: 1}
@@ -2039,11 +2042,20 @@ func generateFrag(r *rand.Rand) *Scenario {
 	if g == 5 && r.Intn(2) == 0 {
 		size = 3
 	}
+	// variant "waiting gang": bigger things wait (3 GPUs and more), so that idle rests of 2 GPUs occur - the refuge of a
+	// moved 2-GPU pod that a later pod of the gang may want as well
+	gangVar := g >= 4 && r.Intn(2) == 0
+	if gangVar {
+		size = 3
+	}
 	// slots: running pods of 1-3 GPUs fill every node up to an idle rest of 1 (sometimes 2) GPUs, smaller than what waits
 	type slot struct{ node, size int }
 	bySize := map[int][]slot{}
 	for ni := 0; ni < nn; ni++ {
 		rest := pick(1, 1, 1, 2)
+		if gangVar {
+			rest = pick(1, 2, 2)
+		}
 		if rest >= size {
 			rest = size - 1
 		}
@@ -2089,6 +2101,28 @@ func generateFrag(r *rand.Rand) *Scenario {
 			for i := 0; i < pendingExtra; i++ {
 				sc.Pods = append(sc.Pods, Pod{Name: fmt.Sprintf("j%d-p%d", k, n+i+1), Job: k, Cpu: 500, Mem: 500, Gpu: sz, Phase: "P"})
 			}
+		}
+	}
+	// sometimes part of the running work cannot be moved at all (non-preemptible)
+	if r.Intn(3) == 0 {
+		for i := range sc.Jobs {
+			if r.Intn(2) == 0 {
+				sc.Jobs[i].Preempt = 0
+			}
+		}
+	}
+	// sometimes a waiting gang of higher priority whose pods differ in size: the solver places it pod by pod, the pods
+	// moved for its first pod must still have their refuge when the later pods are placed
+	if gangVar {
+		k++
+		n := pick(2, 2, 3)
+		sc.Jobs = append(sc.Jobs, Job{Name: fmt.Sprintf("j%d", k), Queue: 2 + r.Intn(nq), Prio: pick(50, 75, 75), Preempt: 1, Min: n, Age: 200, LastStart: -1})
+		for i := 0; i < n; i++ {
+			sz := pick(2, 2, 3, g-1, g)
+			if i == 0 {
+				sz = pick(3, g-1, g)
+			}
+			sc.Pods = append(sc.Pods, Pod{Name: fmt.Sprintf("j%d-p%d", k, i+1), Job: k, Cpu: 500, Mem: 500, Gpu: sz, Phase: "P"})
 		}
 	}
 	// waiting pods that fit nowhere as the cluster stands
@@ -2189,5 +2223,61 @@ func otherKindProtected(r *rand.Rand, sc *Scenario) *Scenario {
 	case strings.HasSuffix(sc.Class, "-preempt"):
 		sc.Cfg.DefMinRtR = 360000
 	}
+	return sc
+}
+
+// generateRefuge (a fifth of profile frag): a waiting gang whose first pod needs a whole node A on which a movable pod V
+// runs; the only refuge of V is the idle rest of node X - exactly what the gang's second pod would need as well; the
+// other nodes are held by non-preemptible pods with idle rests too small for anybody. Total idle GPUs suffice, so
+// consolidation tries; it may only act if every pod it takes is placed again.
+func generateRefuge(r *rand.Rand) *Scenario {
+	pick := func(vs ...int) int { return vs[r.Intn(len(vs))] }
+	sc := &Scenario{Class: "frag"}
+	sc.Cfg = Cfg{Placement: []string{"binpack", "spread"}[r.Intn(2)], Consolidation: 1, Signatures: pick(0, 1),
+		ConsReclaim: pick(0, 1), SatMult: 1000, Cycles: pick(2, 8), Env: "closed", FullHier: 1}
+	gA, gX := pick(4, 4, 5), pick(4, 4, 5)
+	v := pick(2, 2, gA-2)
+	small := pick(1, 2, 2)
+	gpus := []int{gA, gX}
+	for i := 0; i < small; i++ {
+		gpus = append(gpus, pick(2, 3))
+	}
+	order := r.Perm(len(gpus))
+	nodeOf := make([]int, len(gpus))
+	for pos, i := range order {
+		nodeOf[i] = pos + 1
+	}
+	byPos := make([]int, len(gpus))
+	for i, g := range gpus {
+		byPos[nodeOf[i]-1] = g
+	}
+	for pos, g := range byPos {
+		sc.Nodes = append(sc.Nodes, Node{Name: fmt.Sprintf("n%d", pos+1), Cpu: 32000, Mem: 64000, Pods: 110, Gpus: g, GpuMem: 40000, Ready: 1})
+	}
+	tot := 0
+	for _, g := range gpus {
+		tot += g
+	}
+	sc.Queues = []Queue{{Name: "d1", Parent: 0, Prio: 100, GQ: -1, GL: -1, GW: 1, CQ: -1, CL: -1, MQ: -1, ML: -1},
+		{Name: "q1", Parent: 1, Prio: 100, GQ: tot * 1000, GL: -1, GW: 1, CQ: -1, CL: -1, MQ: -1, ML: -1}}
+	k := 0
+	run := func(node, size, preempt, prio int) {
+		k++
+		sc.Jobs = append(sc.Jobs, Job{Name: fmt.Sprintf("j%d", k), Queue: 2, Prio: prio, Preempt: preempt, Min: 1, Age: 1200 + 60*r.Intn(60), LastStart: 36000})
+		sc.Pods = append(sc.Pods, Pod{Name: fmt.Sprintf("j%d-p1", k), Job: k, Cpu: 500, Mem: 500, Gpu: size, Phase: "R", Node: node})
+	}
+	run(nodeOf[0], v, 1, 50)     // V on node A, movable
+	run(nodeOf[1], gX-v, 0, 100) // node X keeps exactly v GPUs idle
+	for i := 0; i < small; i++ {
+		run(nodeOf[2+i], gpus[2+i]-1, pick(0, 0, 1), pick(50, 100)) // one idle GPU, of no use to anybody
+	}
+	k++
+	n := pick(2, 2, 3)
+	sc.Jobs = append(sc.Jobs, Job{Name: fmt.Sprintf("j%d", k), Queue: 2, Prio: pick(75, 75, 50), Preempt: 1, Min: n, Age: 200, LastStart: -1})
+	sizes := []int{gA, v, 1}
+	for i := 0; i < n; i++ {
+		sc.Pods = append(sc.Pods, Pod{Name: fmt.Sprintf("j%d-p%d", k, i+1), Job: k, Cpu: 500, Mem: 500, Gpu: sizes[i], Phase: "P"})
+	}
+	sc.Normalize()
 	return sc
 }
